@@ -1,7 +1,26 @@
-from . import engprop, apiprops, gen
-CFG = apiprops.cfg("C16", ["C16_len", "C16_group_range", "C16_get_oob", "C16_len_truncated"], [apiprops.api_extra("C16", limits=("-",))],
+from . import engprop, apiprops, gen, t1
+
+
+def names_tie(ctx):
+    """T1 on C16's patterns: the real parser's tree, back-reference set and NAME -> index table
+    against the parser model (the accessor checks compare the crate with its own parser)"""
+    res = ctx["res"]
+    pats = [i["pattern"] for i in ctx["infos"]]
+    bad, kinds, _ = t1.compare(pats)
+    ok = res.oblige("tie:T1 parser (tree, back-reference set, name -> index table) model = implementation on %d patterns" % len(pats), not bad)
+    if not ok:
+        ctx["tie_fail"].append(dict(bad[0], tier="T1"))
+        b = bad[0]
+        if "names=" in b["impl"] and b["impl"].split("names=")[0] == b["model"].split("names=")[0]:
+            ctx["violations"].append({"kind": "input", "pattern": b["pattern"], "check": "each name at its group's index (pre-order number of the named group)",
+                                      "impl": b["impl"].split("names=")[1], "reference": b["model"].split("names=")[1]})
+
+
+CFG = apiprops.cfg("C16", ["C16_len", "C16_group_range", "C16_get_oob", "C16_len_truncated"], [apiprops.api_extra("C16", limits=("-",)), names_tie],
                    feats=[gen.Feats(named=True, cond=True, contg=True), gen.Feats(named=True, fancy=False), gen.Feats(named=True, nullable_star=True)],
-                   corpus=["(?<a>x)(?P<b>y)(z)", "(?<n>a)|(?<m>b)", "(a)(?=(?<q>b))", "((a)|(?<x>b))*", "(?<a>(?<b>(?<c>x)))", "(x)(?(1)(?<y>a)|(b))"])
+                   corpus=["(?<a>x)(?P<b>y)(z)", "(?<n>a)|(?<m>b)", "(a)(?=(?<q>b))", "((a)|(?<x>b))*", "(?<a>(?<b>(?<c>x)))", "(x)(?(1)(?<y>a)|(b))", "(?P<outer>a(b))", "(?P<o>(?P<i>a)(b))(?=c)", "(?<o>a(?P<i>b(c)))\\k<i>",
+                           # groups under a {0} repeat still count (and keep their names)
+                           "(a){0}b", "(?<n>a){0}b", "(a){0}(b)", "a(?:(b)|c){0}", "(?<x>a)(?<y>b){0}", "(?=a)(a)(b){0}"])
 
 
 def run(tier, seed, replay=None):
